@@ -29,6 +29,12 @@ R2b Sibling layers of one container may re-use a local id for layer-local object
     A reference without DOCREF from inside layer L then names L's OWN object (innermost fragment
     first).  What such an id names from outside the carrying layers (no DOCREF from a sibling
     that does not carry it, DOCREF to the container fragment) is not decided -> loose.
+R2c An id that L does not carry itself but exactly one ESD imported by L does names the imported
+    object even when a SIBLING layer of L's container carries the same id: "the imported objects
+    shall behave as if they were defined by the importing layer" (comment in DiagLayer.
+    _resolve_odxlinks; registered with overwrite=False so that only L's own definitions win), and
+    the layer fragment is searched before the container-wide one (R2b).  Collision with the
+    container element's own id, or the id carried by two imports -> loose.
 R3  IMPORT-REFs extend the importing layer only, and are not transitive.
 R4  A short-name reference names the unique object of that short name in its context: the
     owning layer's view after value inheritance (local objects override inherited ones, per
@@ -59,7 +65,7 @@ XSI = "http://www.w3.org/2001/XMLSchema-instance"
 # object kinds
 DOPLIKE = ("dop", "struct", "sfield", "demf", "mux")
 LAYER_LISTS = {"dops": "dop", "structs": "struct", "sfields": "sfield", "demfs": "demf", "muxs": "mux",
-               "tables": "table", "reqs": "req", "poss": "pos", "negs": "neg", "svcs": "svc"}
+               "tables": "table", "reqs": "req", "poss": "pos", "negs": "neg", "svcs": "svc", "cdatas": "cdata"}
 
 # reference kinds: name -> (expected target kinds, SNREF view category or None)
 RK = {
@@ -91,6 +97,9 @@ RK = {
     "TABLE-ROW/STRUCTURE-SNREF": (("struct",), "struct"),
     "TABLE-ROW/DATA-OBJECT-PROP-REF": (("dop",), None),
     "TABLE-ROW/DATA-OBJECT-PROP-SNREF": (("dop",), "dop"),
+    "COMPANY-DATA-REF": (("cdata",), None),               # ADMIN-DATA/COMPANY-DOC-INFOS/COMPANY-DOC-INFO
+    "TEAM-MEMBER-REF": (("tmember",), None),             #   "
+    "DOC-REVISION/TEAM-MEMBER-REF": (("tmember",), None),  # ADMIN-DATA/DOC-REVISIONS/DOC-REVISION
     "TABLE/TABLE-ROW-REF": (("row",), None),          # a table including a row another table defines
     "PROTOCOL-SNREF": (("layer",), "protocols"),      # DIAG-COMM/PROTOCOL-SNREFS: the layer's protocols
 }
@@ -125,6 +134,20 @@ def iter_param_lists(layer):
 def iter_sites(layer):
     """Yield (path, base reference element name, holder, key) for every reference of a layer.
     holder[key] is the reference dict.  path identifies the site (without the layer)."""
+    def admin(prefix, a):
+        for k, cdi in enumerate(a.get("cdis", [])):
+            yield prefix + ("cdi", k, "cd"), "COMPANY-DATA-REF", cdi, "cd"
+            if cdi.get("tm") is not None:
+                yield prefix + ("cdi", k, "tm"), "TEAM-MEMBER-REF", cdi, "tm"
+        for k, rev in enumerate(a.get("revs", [])):
+            if rev.get("tm") is not None:
+                yield prefix + ("rev", k, "tm"), "DOC-REVISION/TEAM-MEMBER-REF", rev, "tm"
+    if layer.get("admin") is not None:
+        yield from admin(("admin",), layer["admin"])
+    for lk in ("reqs", "svcs", "dops"):
+        for j, o in enumerate(layer.get(lk, [])):
+            if o.get("admin") is not None:
+                yield from admin((lk, j, "admin"), o["admin"])
     for i, _ in enumerate(layer.get("parents", [])):
         yield ("parent", i), "PARENT-REF", layer["parents"], i
     for i, _ in enumerate(layer.get("imports", [])):
@@ -253,6 +276,8 @@ class Model:
                     for o in l.get(lk, []):
                         self._reg(kind, o, l["sn"], c["sn"], maps)
                         loc.setdefault(o["sn"], []).append(o["uid"])
+                        for tm in o.get("members", []):
+                            self._reg("tmember", tm, l["sn"], c["sn"], maps)
                         for p in o.get("params", []):
                             pk = {"TABLE-KEY": "tkey", "LENGTH-KEY": "lkey"}.get(p["kind"], "param")
                             self._reg(pk, p, l["sn"], c["sn"], maps)
@@ -303,23 +328,29 @@ class Model:
         own = self.ids_layer[layer_sn].get(rid)
         if own is not None:
             return "ok", [own], "", "own"
-        allowed = []
-        via = None
+        imp = []
         if with_imports:
             for e in self._imports.get(layer_sn, []):
                 u = self.ids_layer[e].get(rid)
-                if u is not None and u not in allowed:
-                    allowed.append(u)
-                    via = "import"
-        for cu in self.ids_cont[self.layer_cont[layer_sn]].get(rid, []):
-            if cu not in allowed:
-                allowed.append(cu)
-                via = via or "container"
-        if not allowed:
+                if u is not None and u not in imp:
+                    imp.append(u)
+        cont = [cu for cu in self.ids_cont[self.layer_cont[layer_sn]].get(rid, []) if cu not in imp]
+        if not imp and not cont:
             return "bad", [], "id-not-visible", "none"
-        if len(allowed) > 1:
-            return "multi", allowed, "id-carried-by-several-visible-fragments", via
-        return "ok", allowed, "", via
+        if len(imp) == 1:
+            if not cont:
+                return "ok", imp, "", "import"
+            if all(self.obj[cu]["layer"] is not None for cu in cont):
+                # R2c: imported objects behave as if the importing layer defined them, i.e. they belong
+                # to the innermost (layer) fragment; ids of SIBLING layers are only carried by the
+                # container-wide fragment, which is searched after it
+                return "ok", imp, "", "import-over-sibling"
+            return "multi", imp + cont, "imported-id-collides-with-container-object", "import"
+        if len(imp) > 1:
+            return "multi", imp + cont, "id-carried-by-several-imports", "import"
+        if len(cont) == 1:
+            return "ok", cont, "", "container"
+        return "multi", cont, "id-carried-by-several-sibling-layers", "container"
 
     def _resolve_structure(self):
         """imports and parents first: they determine visibility for everything else"""
@@ -472,7 +503,7 @@ class Model:
                     if st == "multi":
                         # an imported id collides with an id of the container (or two imports carry
                         # it): which one is named is not fixed by the statement -> nothing asserted
-                        st, why = "loose", "id-carried-by-several-visible-fragments"
+                        st = "loose"
                         site["multi"] = True
                 else:
                     params = None
@@ -590,9 +621,31 @@ def _params(parent, params):
             _sub(dct, "BIT-LENGTH", "8")
 
 
+def _admin(parent, a):
+    if a is None:
+        return
+    e = _sub(parent, "ADMIN-DATA")
+    if a.get("cdis"):
+        g = _sub(e, "COMPANY-DOC-INFOS")
+        for cdi in a["cdis"]:
+            ce = _sub(g, "COMPANY-DOC-INFO")
+            _ref(ce, "COMPANY-DATA-REF", cdi["cd"])
+            if cdi.get("tm") is not None:
+                _ref(ce, "TEAM-MEMBER-REF", cdi["tm"])
+    if a.get("revs"):
+        g = _sub(e, "DOC-REVISIONS")
+        for rev in a["revs"]:
+            re_ = _sub(g, "DOC-REVISION")
+            if rev.get("tm") is not None:
+                _ref(re_, "TEAM-MEMBER-REF", rev["tm"])
+            _sub(re_, "REVISION-LABEL", "1.0")
+            _sub(re_, "DATE", "2024-01-01T00:00:00")
+
+
 def _dop(parent, d):
     e = _sub(parent, "DATA-OBJECT-PROP", ID=d["id"])
     _names(e, d)
+    _admin(e, d.get("admin"))
     cm = _sub(e, "COMPU-METHOD")
     _sub(cm, "CATEGORY", "IDENTICAL")
     if d.get("lenkey") is not None:
@@ -609,6 +662,17 @@ def _dop(parent, d):
 def _layer(parent, l):
     e = _sub(parent, l["type"], ID=l["id"])
     _names(e, l)
+    _admin(e, l.get("admin"))
+    if l.get("cdatas"):
+        g = _sub(e, "COMPANY-DATAS")
+        for cd in l["cdatas"]:
+            ce = _sub(g, "COMPANY-DATA", ID=cd["id"])
+            _names(ce, cd)
+            if cd.get("members"):
+                tg = _sub(ce, "TEAM-MEMBERS")
+                for tm in cd["members"]:
+                    te = _sub(tg, "TEAM-MEMBER", ID=tm["id"])
+                    _names(te, tm)
     if any(l.get(k) for k in ("dops", "structs", "sfields", "demfs", "muxs", "tables")):
         dd = _sub(e, "DIAG-DATA-DICTIONARY-SPEC")
         if l.get("dops"):
@@ -678,6 +742,7 @@ def _layer(parent, l):
         for s in l.get("svcs", []):
             se = _sub(g, "DIAG-SERVICE", ID=s["id"])
             _names(se, s)
+            _admin(se, s.get("admin"))
             _ref(se, "REQUEST-REF", s["request"])
             if s.get("pos"):
                 pg = _sub(se, "POS-RESPONSE-REFS")
@@ -700,6 +765,7 @@ def _layer(parent, l):
             for o in l[lk]:
                 oe = _sub(g, tag, ID=o["id"])
                 _names(oe, o)
+                _admin(oe, o.get("admin"))
                 _params(oe, o.get("params", []))
     if l.get("imports"):
         g = _sub(e, "IMPORT-REFS")
@@ -818,6 +884,10 @@ class Gen:
             l["poss"] = [{"sn": n, "uid": self.nuid(), "params": []} for n in names("pos", 0, 2)]
             l["negs"] = [{"sn": n, "uid": self.nuid(), "params": []} for n in names("neg", 0, 1)]
             l["svcs"] = [{"sn": n, "uid": self.nuid()} for n in names("svc", 0, 2)]
+            l["cdatas"] = []
+            if self.chance(60):
+                l["cdatas"].append({"sn": "cd_xa" if esd else "cd_a", "uid": self.nuid(),
+                                    "members": [{"sn": f"tm{i}", "uid": self.nuid()} for i in range(r.randint(1, 2))]})
             for t in l["tables"]:
                 for i in range(r.randint(0, 2)):
                     t["rows"].append({"sn": f"r{i}", "uid": self.nuid()})
@@ -853,6 +923,7 @@ class Gen:
                         loc.append(o)
                         loc.extend(p for p in o.get("params", []) if p["kind"] in ("TABLE-KEY", "LENGTH-KEY"))
                         loc.extend(o.get("rows", []))
+                        loc.extend(o.get("members", []))
                 per_layer.append(loc)
             if reuse_case and len(c["layers"]) >= 2:
                 # class "sibling-id-reuse" (R2b): every layer of the container draws the ids of its
@@ -1009,6 +1080,8 @@ class Gen:
 
     def fill_refs(self, m, layers):
         r = self.r
+        # ADMIN-DATA on DATA-OBJECT-PROPs only in some sets (one decision per set)
+        dop_admin = self.chance(12)
         for l in layers:
             # services
             for s in l["svcs"]:
@@ -1022,6 +1095,22 @@ class Gen:
                 t = self.choose_target(m, l, ("svc",), exclude_layers=(l["sn"],))
                 if t is not None and m.obj[t]["sn"] not in [s["sn"] for s in l["svcs"]]:
                     l["commrefs"].append(self.id_ref_to(m, l, t))
+            if any(x["cdatas"] for x in layers):
+                holders = [l] if self.chance(55) else []
+                holders += [o for lk in ("reqs", "svcs") for o in l[lk] if self.chance(20)]
+                if dop_admin:
+                    holders += [o for o in l["dops"] if self.chance(35)]
+                for h in holders:
+                    a = {"cdis": [], "revs": []}
+                    cd = self.make_ref(m, l, "COMPANY-DATA-REF")
+                    if cd is not None:
+                        a["cdis"].append({"cd": cd, "tm": self.make_ref(m, l, "TEAM-MEMBER-REF") if self.chance(70) else None})
+                    if self.chance(60):
+                        tm = self.make_ref(m, l, "DOC-REVISION/TEAM-MEMBER-REF")
+                        if tm is not None:
+                            a["revs"].append({"tm": tm})
+                    if a["cdis"] or a["revs"]:
+                        h["admin"] = a
             for lk, _, o in iter_param_lists(l):
                 keep = []
                 for p in o["params"]:
@@ -1231,7 +1320,7 @@ class Gen:
         kinds, cat = RK[rk]
         if cat == "params":
             params = l[path[0]][path[1]]["params"]
-            opts = [("nonexistent-name", 1)]
+            opts = [("nonexistent-name", 3)]
             elsewhere = sorted({p["sn"] for _, l2 in iter_layers(case) for _, _, o in iter_param_lists(l2)
                                 for p in o["params"] if p["kind"] == "TABLE-KEY"} - {p["sn"] for p in params})
             if elsewhere:
